@@ -4,7 +4,7 @@ Python is the *independent encoder*: instances from vlib.treegen are rendered to
 libyang code involved; libyang parses them (`rt`, `cross`), prints them under every option set and re-parses its own output;
 expat and Python's json read libyang's output and the recovered structure is compared with the tree libyang reports
 (`view`)."""
-import json, xml.parsers.expat
+import json, re, xml.parsers.expat
 from vlib import paths
 from vlib.proto import hexs, unhex
 
@@ -89,7 +89,12 @@ def expat_structure(doc, qname_attrs=()):
     def start(name, attrs):
         ns, _, ln = name.rpartition("\x01")
         for k in attrs:
-            if k in qname_attrs:
+            if qname_attrs == "auto":
+                # any value that reads as a QName whose prefix is bound in scope
+                m = re.match(r"^([A-Za-z_][\w.-]*):([A-Za-z_][\w.-]*)$", attrs[k])
+                if m and scope.get(m.group(1)):
+                    attrs[k] = "{%s}%s" % (scope[m.group(1)][-1], m.group(2))
+            elif k in qname_attrs:
                 pfx, _, loc = attrs[k].rpartition(":")
                 bound = scope.get(pfx or None) or ["?unbound"]
                 attrs[k] = "{%s}%s" % (bound[-1], loc)
